@@ -95,6 +95,10 @@ def run(chk: core.Check):
     from harness.props import c12_extra
 
     chk.stages["unique_inputs"] = c12_extra.unique_stage(chk, (8 if quick else 80) * (3 if chk.broken else 1))
+    # the stateful phase's thread (real execute_state_machine_loop under a scripted Hypothesis) vs ModelP_C11: steps after the stop
+    from harness.props import stateful_producer as SP
+
+    chk.stages["stateful_producer"] = SP.stage(chk, (80 if quick else 2000) * (3 if chk.broken else 1))
     chk.stages["rate_limit"] = c12_extra.rate_stage(chk, (3 if quick else 25) * (3 if chk.broken else 1))
     for f in chk.findings:
         chk.known(f, False)
